@@ -13,6 +13,8 @@ fn zst_state(sh: Shape) -> Z {
 pub const ZS_OLD: Shape = split(8, 0, 0, 4, 0b0010, 0, 0);
 /// split, two-group old table, element in the second group (cursor in the first)
 pub const ZS_OLD2: Shape = split(8, 0, 0, 8, 0b0010_0000, 0, 0);
+/// split, two-group old table, element in the first group (the cursor's)
+pub const ZS_OLD3: Shape = split(8, 0, 0, 8, 0b0000_0100, 0, 0);
 /// unsplit with the element in main
 pub const ZS_MAIN: Shape = unsplit(4, 0b0001, 0);
 
@@ -70,9 +72,8 @@ fn zst_insert__empty() {
     zst_insert(U0)
 }
 
-fn zst_retain(sh: Shape) {
+fn zst_retain(sh: Shape, keep: bool) {
     let mut m = zst_state(sh);
-    let keep: bool = kani::any();
     let n = m.len();
     let mut calls = 0;
     m.retain(|_, _| {
@@ -87,6 +88,17 @@ fn zst_retain(sh: Shape) {
     kani::cover!(true, "reach: end of harness");
     core::mem::forget(m);
 }
-// NOT REGISTERED: since the model's pointers lost their niche CBMC ends this harness with
-// VERIFICATION ERROR (solver failure after 4-10 min); ZST remove / insert harnesses remain.
-// fn zst_retain__old() { zst_retain(ZS_OLD) }
+// the predicate's answer is concrete per harness: with a symbolic answer CBMC ends with
+// VERIFICATION ERROR (solver failure) on this element type
+// (the one-group 4-bucket old table ZS_OLD makes CBMC fail on this harness; 8-bucket ones work)
+// zst_retain__old3_drop (element in the cursor's own group, dropped): CBMC's solver fails too — not registered
+#[kani::proof]
+#[kani::unwind(34)]
+fn zst_retain__old2_keep() {
+    zst_retain(ZS_OLD2, true)
+}
+#[kani::proof]
+#[kani::unwind(34)]
+fn zst_retain__old2_drop() {
+    zst_retain(ZS_OLD2, false)
+}
